@@ -171,7 +171,7 @@ impl Property for C05 {
         "C05"
     }
     fn rule(&self) -> &'static str {
-        "case = vector kind (5 shared + 3 local) x 1-4 label names x 0-2 constant labels x 2-12 requests (slice or map form; &str values are views into larger buffers whose start address varies mod 8 from request to request, \
+        "case = vector kind (5 shared + 3 local) x 1-4 label names x 0-2 constant labels x 2-12 requests (slice or map form; &str values are views into larger buffers whose start address varies mod 8 from request to request or, in 40% of the cases, one set of scratch buffers rewritten in place, \
          values concatenated from an adversarial fragment pool; later requests are re-splits / permutations / repeats of earlier \
          tuples; 6% of requests use a 24-83 byte value or a variant of it with a region removed / repeated / one byte changed) + error requests; every successful request is followed by a unique 2^i update; 2% of cases start from a \
          vector that already holds 200-2100 other children. Non-trivial: two different tuples \
@@ -245,6 +245,13 @@ impl C05 {
         let mut history: Vec<(Vec<String>, u8)> = vec![]; // (tuple, form)
         let nreq = 2 + src.below(11);
         let check_every = src.chance(32);
+        // 40% of cases: every &str request is written into ONE set of scratch buffers, rewritten in place (same addresses from request to
+        // request, often the same lengths) - the way a request loop re-uses its buffers; the other cases pass views at shifting addresses
+        let scratch_mode = src.chance(100);
+        let mut scratch: Vec<String> = (0..nlab).map(|_| String::with_capacity(256)).collect();
+        if scratch_mode {
+            rep.class("scratch-buffers-rewritten-in-place");
+        }
         let mut log: Vec<String> = vec![];
         let mut shifted = false;
         let mut cross_form = false;
@@ -279,7 +286,21 @@ impl C05 {
             // 1% of requests: one value is one of the two strings with equal 64-bit FNV-1a hash, the rest as in the earlier
             // request that used the other one
             let coll_req = src.chance(3);
-            let tuple: Vec<String> = if coll_req {
+            // 0.8% of requests (2+ labels): one of two tuples that differ only in where one value ends and the next begins AND whose value
+            // lengths read the same modulo 256 (or 65536) - see pools::length_wrap_twins; the second of the pair comes with a later request
+            let wrap_req = nlab >= 2 && src.chance(2);
+            let tuple: Vec<String> = if wrap_req {
+                let w = if src.chance(200) { 1 } else { 2 };
+                let (first, second) = crate::pools::length_wrap_twins(w);
+                let k = src.below(nlab - 1);
+                let twin_seen = history.iter().any(|(t, _)| t[k] == first.0 && t[k + 1] == first.1);
+                let (p, q) = if twin_seen { second } else { first };
+                let mut t: Vec<String> = vec![String::new(); nlab];
+                t[k] = p;
+                t[k + 1] = q;
+                rep.class(if w == 1 { "length-wrap-twins(256)" } else { "length-wrap-twins(65536)" });
+                t
+            } else if coll_req {
                 let (a, b) = crate::pools::FNV64_COLLISION;
                 match history.iter().rev().find(|(t, _)| t.iter().any(|v| v == a || v == b)).map(|(t, _)| t.clone()) {
                     Some(prev) => {
@@ -470,7 +491,14 @@ impl C05 {
                     (pad, format!("{}{}", &"~~~~~~~~"[..pad], v))
                 })
                 .collect();
-            let views: Vec<&str> = padded.iter().map(|(pad, b)| &b[*pad..]).collect();
+            let in_place = scratch_mode && tuple.iter().all(|v| v.len() <= 256);
+            if in_place {
+                for (b, v) in scratch.iter_mut().zip(&tuple) {
+                    b.clear();
+                    b.push_str(v);
+                }
+            }
+            let views: Vec<&str> = if in_place { scratch.iter().map(|b| b.as_str()).collect() } else { padded.iter().map(|(pad, b)| &b[*pad..]).collect() };
             let existed = model.contains_key(&tuple);
             let expected_before = model.get(&tuple).map(|c| model_value(&c.updates)).unwrap_or(0.0);
             let expected_count = model.get(&tuple).map(|c| c.updates.len() as u64).unwrap_or(0);
@@ -571,7 +599,8 @@ impl C05 {
             rep.class("with-const-labels");
         }
         if rep.want_sample {
-            rep.sample = Some(format!("{:?} names={:?} consts={:?} :: {}", kind, names, consts, log.join(" ")));
+            let text = format!("{:?} names={:?} consts={:?} :: {}", kind, names, consts, log.join(" "));
+            rep.sample = Some(if text.len() > 4000 { format!("{} ... ({} bytes)", text.chars().take(600).collect::<String>(), text.len()) } else { text });
         }
         Verdict::Pass
     }
